@@ -12,6 +12,7 @@ import math
 import random
 import sys
 import uuid
+import contextvars
 
 import anyio
 
@@ -171,6 +172,15 @@ def run_schedule(sched, seed=0):
         d.update(kw)
         events.append(d)
 
+    # ids and progress tokens the LIBRARY generates are predicted (patched uuid4) so that arrivals
+    # may precede the request; what it really wrote is learned at the write (the writing task is
+    # the caller's).  A library that generates ids another way is not wrong: a run whose arrivals
+    # named a caller before its request existed is then not judged (unpredicted).
+    cur = contextvars.ContextVar("verif_caller", default=None)
+    wrote = set()
+    named_early = set()
+    unpredicted = []
+
     class Wire:
         """the write stream handed to send_message: records at the instant of the write"""
 
@@ -183,7 +193,23 @@ def run_schedule(sched, seed=0):
                 ok = "id" not in d and d.get("jsonrpc") == "2.0"
                 ev("Wire", c=who[0] if who else "other", w="cancelnotif", ok=bool(ok and who))
                 return
+            me = cur.get()
+            if me is not None and me not in wrote and callers[me].get("idshape", "str") == "uuid" and meth == methods.get(me):
+                got_id = d.get("id")
+                got_tok = ((d.get("params") or {}).get("_meta") or {}).get("progressToken") if isinstance(d.get("params"), dict) else None
+                if isinstance(got_id, (str, int)) and not isinstance(got_id, bool) and got_id != ids[me]:
+                    if me in named_early:
+                        unpredicted.append(me)
+                    ids[me] = got_id
+                if callers[me].get("cb") and isinstance(got_tok, (str, int)) and got_tok != tokens.get(me):
+                    if me in named_early:
+                        unpredicted.append(me)
+                    tokens[me] = got_tok
+            if me is not None:
+                wrote.add(me)
             who = [c for c in callers if ids[c] == d.get("id") and type(ids[c]) is type(d.get("id"))]
+            if me in who:
+                who = [me]          # two callers holding the same id: the writer is known
             if not who:
                 ev("Wire", c="other", w="request", ok=False)
                 return
@@ -204,6 +230,8 @@ def run_schedule(sched, seed=0):
     def make_message(s, n):
         k = s["k"]
         who = s.get("id", "other")
+        if who in callers and who not in wrote:
+            named_early.add(who)
         rid = ids[who] if who in callers else other_id
         if s.get("twin") in callers and who not in callers:
             t = twin_id(ids[s["twin"]])
@@ -258,6 +286,7 @@ def run_schedule(sched, seed=0):
         narr = 0
 
         async def caller(c):
+            cur.set(c)
             k = callers[c]
             ncb = 0
 
@@ -350,6 +379,8 @@ def run_schedule(sched, seed=0):
     finally:
         uuid.uuid4 = old
     started = [s["c"] for s in steps if s["a"] == "Start"]
+    if unpredicted:
+        return {"unpredicted": sorted(set(unpredicted))}
     return {"cfg": cfg, "solo": len(started) <= 1, "ev": events}
 
 
@@ -441,7 +472,7 @@ def random_schedule(rng, ncallers=1, max_arr=12, flood=False, cancel=True, progr
         t0 = rng.choice([0, 0, 0, 0.01, 0.2, 0.25, 0.5])
         steps.append({"a": "Start", "c": c, "t": t0})
         callers[c]["t0"] = t0
-        if callers[c]["tok"] and rng.random() < 0.7:
+        if cancel is True and callers[c]["tok"] and rng.random() < 0.7:
             tc = _interesting_time(rng, t0, T) if rng.random() < 0.9 else max(0, t0 - 0.1)
             steps.append({"a": "Cancel", "c": c, "t": tc, "tie": rng.choice(["before", "after"])})
     horizon = max(k["t0"] + k["T"] for k in callers.values())
